@@ -1,35 +1,35 @@
 #!/bin/bash
-# seedcheck.sh <seed-dir-with-SEED> <name> <prop> [demo-pkg-dir]  — confirm a seeded change and run our checks against it
+# seedcheck.sh <worktree-with-SEED> <name> "<props>" [demo-pkg-dir] [seed-subdir=SEED]  — confirm a seeded change and run our checks against it
 set -u
-SRC="$1"; NAME="$2"; PROP="$3"
+SRC="$1"; NAME="$2"; PROP="$3"; SUB="${5:-SEED}"
 export GOFLAGS=-mod=mod GOPROXY=off GOSUMDB=off GOTOOLCHAIN=local; unset GOWORK
 SC=/tmp/sc-$NAME
 rm -rf $SC; git -C /repo worktree prune; git -C /repo worktree add -q --detach $SC HEAD || exit 3
-DEMO=$(ls $SRC/SEED/*_test.go | head -1)
+DEMO=$(ls $SRC/$SUB/*_test.go | head -1)
 PKG="${4:-}"
 if [ -z "$PKG" ]; then PKG=$(cd $SRC && git status --porcelain | grep '_seed_test.go\|_test.go' | grep '^??' | head -1 | awk '{print $2}' | xargs dirname); fi
 echo "demo=$DEMO pkg=$PKG"
 cd $SC
-git apply $SRC/SEED/patch.diff || { echo "PATCH-DOES-NOT-APPLY"; exit 3; }
+git apply $SRC/$SUB/patch.diff || { echo "PATCH-DOES-NOT-APPLY"; exit 3; }
 go build ./... || { echo "DOES-NOT-COMPILE"; exit 3; }
 go test -count=1 ./... > /tmp/sc-$NAME.full.log 2>&1; FULL=$?
 echo "full suite with change: rc=$FULL"; grep -v "^ok\|no test files" /tmp/sc-$NAME.full.log | head -5
 cp $DEMO $PKG/
 go test -count=1 ./$PKG/ > /tmp/sc-$NAME.with.log 2>&1; WITH=$?
 echo "demo with change: rc=$WITH (want != 0)"; tail -3 /tmp/sc-$NAME.with.log
-git apply -R $SRC/SEED/patch.diff
+git apply -R $SRC/$SUB/patch.diff
 go test -count=1 ./$PKG/ > /tmp/sc-$NAME.without.log 2>&1; WITHOUT=$?
 echo "demo without change: rc=$WITHOUT (want 0)"; tail -2 /tmp/sc-$NAME.without.log
 cd /verif
 git -C /repo worktree remove --force $SC
 # our checks against the change
-git -C /repo apply $SRC/SEED/patch.diff || { echo "cannot apply to /repo"; exit 3; }
+git -C /repo apply $SRC/$SUB/patch.diff || { echo "cannot apply to /repo"; exit 3; }
 OUT=/tmp/sc-$NAME.check.log; : > $OUT
 for P in $PROP; do ./run.sh $P quick >> $OUT 2>&1; echo "check $P rc=$?"; done
 git -C /repo checkout -- .
 grep "^VIOLATION" $OUT | cut -c1-300
 mkdir -p /verif/seeded/$NAME
-cp $SRC/SEED/patch.diff /verif/seeded/$NAME/patch.diff
+cp $SRC/$SUB/patch.diff /verif/seeded/$NAME/patch.diff
 cp $DEMO /verif/seeded/$NAME/
-cp $SRC/SEED/README.md /verif/seeded/$NAME/README.agent.md 2>/dev/null
+cp $SRC/$SUB/README.md /verif/seeded/$NAME/README.agent.md 2>/dev/null
 echo "CONFIRM full=$FULL with=$WITH without=$WITHOUT pkg=$PKG"
